@@ -107,6 +107,11 @@ pub trait Timeout {
     fn verif_oracle(&self, _mv: ChessMove, _current_depth: u16) -> Option<Score> {
         None
     }
+
+    /// verification hook: told when a search call at `current_depth` was not answered by the
+    /// oracle and runs for real (a checker can cut such paths off)
+    #[cfg(rustyyato_chess_verif)]
+    fn verif_real_search(&self, _current_depth: u16) {}
 }
 
 impl<T: Timeout + Copy> TimeoutRef for T {}
@@ -121,6 +126,11 @@ impl<T: ?Sized + Timeout> Timeout for &T {
     #[cfg(rustyyato_chess_verif)]
     fn verif_oracle(&self, mv: ChessMove, current_depth: u16) -> Option<Score> {
         T::verif_oracle(self, mv, current_depth)
+    }
+
+    #[cfg(rustyyato_chess_verif)]
+    fn verif_real_search(&self, current_depth: u16) {
+        T::verif_real_search(self, current_depth)
     }
 }
 
@@ -393,6 +403,8 @@ impl Engine {
         if let Some(score) = args.timeout.verif_oracle(mv, args.current_depth) {
             return score;
         }
+        #[cfg(rustyyato_chess_verif)]
+        args.timeout.verif_real_search(args.current_depth);
 
         let board = unsafe { args.old_board.move_unchecked(mv) };
         let was_capture = args.old_board.raw().get(mv.dest).is_some();
